@@ -11,6 +11,7 @@ import (
 	"sync"
 
 	"github.com/deepteams/webp/internal/dsp"
+	"github.com/deepteams/webp/internal/verifhook"
 )
 
 // minPixelsForParallel is the minimum number of pixels to justify parallel
@@ -169,6 +170,7 @@ func inverseTransform(t *Transform, rowStart, rowEnd int, in, out []uint32) {
 
 	case CrossColorTransform:
 		numWorkers := runtime.GOMAXPROCS(0)
+		numWorkers = verifhook.Workers(verifhook.SiteLosslessInvCrossColor, numWorkers)
 		if numWorkers > 1 && numPixels >= minPixelsForParallel {
 			colorSpaceInverseTransformParallel(t, rowStart, rowEnd, in, out, numWorkers)
 		} else {
@@ -555,6 +557,7 @@ func colorSpaceInverseTransformParallel(t *Transform, yStart, yEnd int, src, dst
 		if w == numWorkers-1 {
 			ye = yEnd
 		}
+		verifhook.Range(verifhook.SiteLosslessInvCrossColor, ys, ye)
 		go func(ys, ye int) {
 			colorSpaceInverseTransform(t, ys, ye, src, dst)
 			wg.Done()
